@@ -340,8 +340,7 @@ def lookups_evaluated(rep, repo, tmod):
                     if (got != want or type(got) is not type(want)) and bad is None:
                         bad = (kind, pin, got, want)
         except ModelError as e:
-            rep.note(f'C19.lookup: {q} outside the evaluator subset ({e})')
-            continue
+            raise ModelError(f'C19.lookup: {q} is outside the evaluator subset ({e}): no verdict on the pin lookup')      # undecided, never a silent pass
         ok = bad is None
         rep.ob('C19.lookup', f'{q} on the stand-in table', ok, evals=15)
         if not ok:
